@@ -18,12 +18,56 @@ FUN = {
     "plain3": lambda a, b, c: a + 2 * b + 3 * c,
     "plain2": lambda a, b: a + 2 * b,
 }
-BIN = {"add": lambda a, b: a + b, "sub": lambda a, b: a - b, "mul": lambda a, b: a * b,
-       "floordiv": lambda a, b: a // b, "mod": lambda a, b: a % b}
-BINSYM = {"add": "+", "sub": "-", "mul": "*", "floordiv": "//", "mod": "%"}
+
+
+def exact(v):
+    """Numbers of the spec are ints and Fractions (= the exact values of Python floats).  A result that a
+    float cannot hold exactly (or a huge one) is outside the fragment: ValueError -> the generator retries."""
+    if isinstance(v, bool):
+        raise ValueError("bool")
+    if isinstance(v, Fraction):
+        if abs(v) > 2 ** 40 or Fraction(float(v)) != v:
+            raise ValueError("not exactly representable as a float")
+        return int(v) if v.denominator == 1 else v
+    if isinstance(v, int):
+        if abs(v) > 2 ** 40:
+            raise ValueError("huge")
+        return v
+    if isinstance(v, tuple):
+        return tuple(exact(x) for x in v)
+    return v
+
+
+def _pow(a, b):
+    if not isinstance(b, int) or b < 0 or b > 6:
+        raise ValueError("exponent outside the fragment")
+    return Fraction(a) ** b
+
+
+def _fdiv(a, b):
+    return Fraction(a) // Fraction(b)
+
+
+def _mod(a, b):
+    return Fraction(a) - Fraction(b) * (Fraction(a) // Fraction(b))
+
+
+BIN = {"add": lambda a, b: exact(a + b), "sub": lambda a, b: exact(a - b), "mul": lambda a, b: exact(a * b),
+       "floordiv": lambda a, b: exact(_fdiv(a, b)), "mod": lambda a, b: exact(_mod(a, b)),
+       "div": lambda a, b: exact(Fraction(a) / Fraction(b)), "pow": lambda a, b: exact(_pow(a, b)),
+       "divmod": lambda a, b: (exact(_fdiv(a, b)), exact(_mod(a, b)))}
+BINSYM = {"add": "+", "sub": "-", "mul": "*", "floordiv": "//", "mod": "%", "div": "/", "pow": "**"}
+
+
+def ktxt(v):
+    """source text of a numeric constant: ints as ints, Fractions as float literals (2 -> 2.0)"""
+    t = repr(float(v)) if isinstance(v, Fraction) else repr(v)
+    return f"({t})" if t.startswith("-") else t
 
 
 def canon(v):
+    if isinstance(v, Fraction):
+        return str(v.numerator) if v.denominator == 1 else f"{v.numerator}/{v.denominator}"
     if isinstance(v, int):
         return str(v)
     if isinstance(v, SBox):
@@ -47,11 +91,17 @@ def etxt(e):
         v = e[1]
         if isinstance(v, SBox):
             return f"Box({v.a}, {v.b})"
+        if isinstance(v, (int, Fraction)):
+            return ktxt(v)
         return repr(v)
     if k == "var":
         return e[1]
     if k == "drange":
         return f"DiscreteRange({etxt(e[1])}, {etxt(e[2])})"
+    if k == "wdrange":
+        return f"DiscreteRange({e[1]}, {e[1] + len(e[2]) - 1}, weights=({', '.join(wtxt(w) for w in e[2])},))"
+    if k == "divmod":
+        return f"divmod({etxt(e[1])}, {etxt(e[2])})"
     if k == "uniform":
         return "Uniform(" + ", ".join(etxt(x) for x in e[1]) + ")"
     if k == "options":
@@ -97,7 +147,7 @@ def rtxt(e):
     if k == "name":
         return e[1]
     if k == "const":
-        return str(e[1])
+        return ktxt(e[1])
     if k == "bin":
         return f"({rtxt(e[2])} {BINSYM[e[1]]} {rtxt(e[3])})"
     if k == "index":
@@ -173,11 +223,15 @@ class Spec:
     def ev(self, e, env):
         k = e[0]
         if k == "const":
-            return ("c", e[1])
+            return ("c", exact(e[1]) if isinstance(e[1], Fraction) else e[1])
         if k == "var":
             return env[e[1]]
         if k == "drange":
             return self.new("drange", None, [self.ev(e[1], env), self.ev(e[2], env)])
+        if k == "wdrange":
+            return self.new("wrange", (e[1], [Fraction(w) for w in e[2]]), [])
+        if k == "divmod":
+            return self.det(BIN["divmod"], [self.ev(e[1], env), self.ev(e[2], env)])
         if k == "uniform":
             opts = [self.ev(x, env) for x in e[1]]
             return self.new("choose", [Fraction(1)] * len(opts), opts)
@@ -272,6 +326,10 @@ class Spec:
                 raise Reject()
             n = hi - lo + 1
             return [(v, Fraction(1, n)) for v in range(lo, hi + 1)]
+        if kind == "wrange":
+            lo, ws = payload
+            tot = sum(ws)
+            return [(lo + i, w / tot) for i, w in enumerate(ws) if w != 0]
         if kind == "choose":
             tot = sum(payload)
             return [(v, w / tot) for v, w in zip(vals, payload)]
@@ -403,6 +461,11 @@ def rexpr_names(e):
 
 
 # ------------------------------------------------------------------ generator
+# float literals (dyadic, so that float arithmetic is exact); Fraction(2) prints as 2.0
+FCONST = [Fraction(1, 2), Fraction(3, 2), Fraction(5, 2), Fraction(-1, 2), Fraction(1, 4), Fraction(15, 2),
+          Fraction(2), Fraction(4), Fraction(1), Fraction(-3, 2)]
+NUMT = ("int", "rint", "num")
+
 SOFT_P = [Fraction(1, 4), Fraction(1, 2), Fraction(1, 2), Fraction(3, 4), Fraction(1, 8)]
 HARD_OR_SOFT_P = [None, None, None] + SOFT_P + [Fraction(0), Fraction(1)]
 
@@ -430,12 +493,99 @@ class Gen:
             return self.prim(depth - 1)
         return self.const()
 
+    def fconst(self):
+        return ("const", self.rng.choice(FCONST))
+
+    def frac_bounds(self, depth):
+        """DiscreteRange endpoints that are not integers: constant, or computed from (random) values"""
+        rng = self.rng
+        r = rng.random()
+        base = self.pick(("int", "rint"))
+        x = ("var", base) if base and rng.random() < 0.7 else self.int_expr(min(depth, 1))
+        half = ("const", rng.choice([Fraction(1, 2), Fraction(1, 4), Fraction(3, 2)]))
+        if r < 0.25:
+            lo = rng.choice([Fraction(1, 2), Fraction(-1, 2), Fraction(3, 2), Fraction(1, 4), Fraction(5, 2), Fraction(-5, 4)])
+            hi = lo + rng.choice([Fraction(1, 2), 1, Fraction(3, 2), 2, Fraction(9, 4), Fraction(1, 4)])
+            return ("const", lo), ("const", hi if rng.random() < 0.7 else int(hi))
+        if r < 0.45:          # n / 2 .. constant or n / 2 + c
+            lo = ("bin", "div", x, ("const", rng.choice([2, 2, 4, Fraction(2)])))
+            hi = rng.choice([("const", rng.choice([1, 2, 3])), ("bin", "add", lo, ("const", rng.choice([1, Fraction(3, 2), Fraction(1, 2)])))])
+            return lo, hi
+        if r < 0.65:          # x - 1/2 .. x + 3/2
+            return ("bin", "sub", x, half), ("bin", "add", x, ("const", rng.choice([Fraction(3, 2), Fraction(1, 2), 1, Fraction(1, 4)])))
+        if r < 0.8:           # integer low, fractional high
+            lo = self.small_int(0)
+            return lo, ("bin", "add", lo, ("const", rng.choice([Fraction(1, 2), Fraction(3, 2), Fraction(5, 2), Fraction(-1, 2)])))
+        if r < 0.9:           # fractional low, integer high
+            return ("bin", "sub", x, half), ("bin", "add", x, ("const", rng.choice([0, 1, 2])))
+        v = self.pick(("num",))
+        lo = ("var", v) if v else ("bin", "mul", x, half)
+        return lo, ("bin", "add", lo, ("const", rng.choice([1, Fraction(3, 2), 2])))
+
+    def num_expr(self, depth):
+        """a numeric expression that may take non-integral values: int-valued random operands combined with
+        float constants (and float-valued random operands) under every binary operator, in both operand orders"""
+        rng = self.rng
+        k = rng.choice(["bin", "bin", "bin", "rbin", "rbin", "rbin", "divmod", "pow", "choice", "numbin", "unary"])
+        a = self.prim(0) if rng.random() < 0.4 else self.int_expr(max(depth - 1, 1))
+        v = self.pick(("num",))
+        if v and rng.random() < 0.25:
+            a = ("var", v)
+        if k == "bin":
+            op = rng.choice(["sub", "sub", "div", "div", "floordiv", "mod", "add", "mul"])
+            if op in ("div", "floordiv", "mod"):
+                b = ("const", rng.choice([2, 4, Fraction(1, 2), Fraction(2), Fraction(-2), Fraction(1, 4), Fraction(3, 2), Fraction(1)]))
+                if op == "div" and b[1] == Fraction(3, 2):
+                    b = ("const", Fraction(2))
+            else:
+                b = self.fconst()
+            return ("bin", op, a, b)
+        if k == "rbin":
+            op = rng.choice(["sub", "sub", "div", "floordiv", "mod", "add", "mul", "pow"])
+            c = ("const", rng.choice([Fraction(1, 2), Fraction(2), Fraction(3, 2), Fraction(-1, 2)])) if op == "pow" else self.fconst()
+            return ("bin", op, c, a)
+        if k == "divmod":
+            b = ("const", rng.choice([2, Fraction(2), Fraction(1, 2), Fraction(3, 2), Fraction(-2)]))
+            pair = ("divmod", a, b) if rng.random() < 0.6 else ("divmod", self.fconst(), a)
+            return ("index", pair, ("const", rng.choice([0, 1])))
+        if k == "pow":
+            return ("bin", "pow", a, ("const", rng.choice([2, Fraction(2), 3, 0, 1])))
+        if k == "choice":
+            opts = [self.fconst() if rng.random() < 0.5 else self.int_expr(0) for _ in range(rng.randint(2, 3))]
+            if rng.random() < 0.5:
+                return ("uniform", opts)
+            seen, pairs = set(), []
+            for x in opts:
+                key = repr(float(x[1])) if x[0] == "const" else repr(x)
+                if key not in seen:
+                    seen.add(key)
+                    pairs.append((x, rng.choice([1, 2, Fraction(1, 2), 3])))
+            return ("options", pairs)
+        if k == "numbin" and depth > 0:
+            op = rng.choice(["sub", "div", "add", "mul", "floordiv", "mod"])
+            x, y = self.num_expr(depth - 1), self.int_expr(1)
+            if op in ("div", "floordiv", "mod"):
+                y = ("const", rng.choice([2, Fraction(1, 2), 4]))
+            return ("bin", op, x, y) if rng.random() < 0.5 or op in ("div", "floordiv", "mod") else ("bin", op, y, x)
+        if k == "unary" and depth > 0:
+            return (rng.choice(["neg", "abs"]), self.num_expr(depth - 1))
+        return ("bin", "sub", a, self.fconst())
+
     def prim(self, depth):
         """a primitive distribution expression over ints"""
         rng = self.rng
-        k = rng.choice(["drange", "drange", "uniform", "options", "ustar"])
+        k = rng.choice(["drange", "drange", "uniform", "options", "ustar", "wdrange", "fdrange", "fdrange"])
         if k == "ustar" and not self.pick(("seq2", "seqv")):
             k = "uniform"
+        if k == "wdrange":        # weighted DiscreteRange used directly, with any low endpoint (zero weights kept)
+            n = rng.randint(2, 4)
+            ws = [rng.choice([1, 1, 2, 3, Fraction(1, 2), Fraction(1, 4), 0]) for _ in range(n)]
+            if all(w == 0 for w in ws):
+                ws[rng.randrange(n)] = 1
+            return ("wdrange", rng.choice([-2, -1, 0, 1, 2, 3, 5]), ws)
+        if k == "fdrange":
+            lo, hi = self.frac_bounds(depth)
+            return ("drange", lo, hi)
         if k == "drange":
             lo = self.small_int(depth)
             if lo[0] == "const":
@@ -558,7 +708,7 @@ class Gen:
 
         def term():
             r = rng.random()
-            v = self.pick(("int", "rint"))
+            v = self.pick(NUMT)
             if v and r < 0.6:
                 return ("name", v)
             t = self.pick(("ptuple",))
@@ -566,10 +716,10 @@ class Gen:
                 return ("index", ("name", t), rng.randrange(self.plen[t]))
             if v and r < 0.9:
                 return ("bin", rng.choice(["add", "sub", "mul"]), ("name", v), term())
-            return ("const", rng.choice([0, 1, 2, 3, 4]))
+            return ("const", rng.choice([0, 1, 2, 3, 4, Fraction(1, 2), Fraction(3, 2), Fraction(5, 2)]))
         a = term()
         if a[0] == "const":
-            v = self.pick(("int", "rint"))
+            v = self.pick(NUMT)
             if v:
                 a = ("name", v)
         return (rng.choice(["lt", "le", "eq", "ne", "lt", "le"]), a, term())
@@ -593,13 +743,13 @@ class Gen:
         for i in range(n_assign + 1):
             while req_slots and req_slots[0] == i:
                 req_slots.pop(0)
-                if self.pick(("int", "rint")):
+                if self.pick(NUMT):
                     p = rng.choice(SOFT_P if soft_only else HARD_OR_SOFT_P)
                     stmts.append(("require", p, self.cond()))
                     had_req = True
             if i == n_assign:
                 break
-            kind = rng.choice(["int", "int", "int", "prim", "prim", "seq", "box", "ptuple"])
+            kind = rng.choice(["int", "int", "int", "prim", "prim", "seq", "box", "ptuple", "num", "num", "num"])
             if had_req and rng.random() < 0.35 and self.pick(("int", "rint")):
                 name = self.pick(("int", "rint"))          # rebind a name a requirement may have captured
                 kind = rng.choice(["int", "prim", "const", "const"])
@@ -609,10 +759,12 @@ class Gen:
                 e, ty = ("const", rng.choice([-3, 0, 2, 6, 9])), "int"
             elif kind == "int":
                 e, ty = self.int_expr(2), "int"
-                if e[0] in ("drange", "uniform", "options", "ustar"):
+                if e[0] in ("drange", "wdrange", "uniform", "options", "ustar"):
                     ty = "rint"
             elif kind == "prim":
                 e, ty = self.prim(1), "rint"
+            elif kind == "num":
+                e, ty = self.num_expr(2), "num"
             elif kind == "seq":
                 e, ty = self.seq_expr()
             elif kind == "box":
@@ -625,9 +777,9 @@ class Gen:
             self.vars[name] = ty
         nobj = rng.choice([1, 1, 2])
         for j in range(nobj):
-            props = [(f"foo{q}", self.int_expr(1)) for q in range(rng.randint(0, 2))]
+            props = [(f"foo{q}", self.num_expr(1) if rng.random() < 0.3 else self.int_expr(1)) for q in range(rng.randint(0, 2))]
             stmts.append(("object", 20 * j, props))
-        if rng.random() < 0.3 and self.pick(("int", "rint")):
+        if rng.random() < 0.3 and self.pick(NUMT):
             stmts.append(("require", rng.choice([None, Fraction(1, 2), Fraction(1, 4)]), self.cond(0)))
         np_ = rng.randint(1, 3)
         for q in range(np_):
@@ -637,8 +789,10 @@ class Gen:
                 v = self.pick(("ptuple", "seq2", "seqv", "box"))
             if v:
                 e = ("var", v)
-            elif r < 0.5 and self.pick(("int", "rint")):
-                e = ("var", self.pick(("int", "rint")))
+            elif r < 0.5 and self.pick(NUMT):
+                e = ("var", self.pick(NUMT))
+            elif r < 0.58:
+                e = self.num_expr(2)
             elif r < 0.6:
                 e = ("tuple", [self.int_expr(1), self.int_expr(0)])
             elif r < 0.7:
